@@ -2,6 +2,7 @@ import GV.Model.Address
 import GV.Proofs.CborLite
 import GV.Gen.AddrConsts
 import GV.Gen.AddrTrailers
+import GV.Gen.AddrSwitches
 /-!
 C05 — Address encodings are mutually consistent.
 -/
@@ -18,6 +19,18 @@ theorem gen_consts :
      GV.Gen.AddrConsts.typeScriptPointer, GV.Gen.AddrConsts.typeKeyNone,
      GV.Gen.AddrConsts.typeScriptNone, GV.Gen.AddrConsts.typeByron, GV.Gen.AddrConsts.typeNoneKey,
      GV.Gen.AddrConsts.typeNoneScript] = [0, 1, 2, 3, 4, 5, 6, 7, 8, 14, 15] := by decide
+
+/-- Regenerated tie: the case lists of the three `switch a.addressType` statements of
+    `populateFromBytes` (re-extracted from the source on every run) are exactly the model's
+    `knownType` / `payKind` / `stakeKind` for every header nibble. -/
+theorem gen_switches : ∀ t, t < 16 →
+    knownType t = GV.Gen.AddrSwitches.knownTypes.contains t ∧
+    decide (payKind t = 0) = GV.Gen.AddrSwitches.payKey.contains t ∧
+    decide (payKind t = 1) = GV.Gen.AddrSwitches.payScript.contains t ∧
+    decide (stakeKind t = 0) = GV.Gen.AddrSwitches.stakeKey.contains t ∧
+    decide (stakeKind t = 1) = GV.Gen.AddrSwitches.stakeScript.contains t ∧
+    decide (stakeKind t = 2) = GV.Gen.AddrSwitches.stakePointer.contains t := by
+  decide
 
 /-- every whitelisted trailer is non-empty (an exact-length address never carries extra data) -/
 theorem trailers_nonempty : ∀ t ∈ GV.Gen.AddrTrailers.trailers, t ≠ [] := by decide
